@@ -236,4 +236,28 @@ theorem C14_copy_within (m : Mode) (v : VW) (buf : List α) (h : v.Inv buf.lengt
       · simp [h1, h2]
     · simp [h1]
 
+/-- non-vacuity: `copy_from_slice` into a 2x2 window (stride 3, offset 1) of an 8-cell buffer writes exactly its four cells
+    (concrete computation); the `TooDee` override on a concrete 3x2 array (`C14_copy_from_slice_owned`) -/
+example : (⟨2, 2, ⟨⟨1, 5⟩, 2, 1⟩⟩ : Acc).copyFromSlice .debug [0, 1, 2, 3, 4, 5, 6, 7] [10, 11, 12, 13] =
+      .ok [0, 10, 11, 3, 12, 13, 6, 7] ∧
+    TD.copyFromSlice (⟨[1, 2, 3, 4, 5, 6], 2, 3⟩ : TD Nat) [6, 5, 4, 3, 2, 1] = .ok [6, 5, 4, 3, 2, 1] :=
+  ⟨by rfl, ((C14_copy_from_slice_owned _ ⟨rfl, by decide, by decide⟩ [6, 5, 4, 3, 2, 1]).1 rfl).1⟩
+/-- non-vacuity of `C14_copy_from_slice_default`: its hypotheses hold for that window; a slice of the wrong length panics -/
+example : (⟨2, 2, ⟨⟨1, 5⟩, 2, 1⟩⟩ : Acc).copyFromSlice .release [0, 1, 2, 3, 4, 5, 6, 7] [10, 11, 12] = .error .panic :=
+  (C14_copy_from_slice_default .release ⟨⟨1, 5⟩, 2, 2, 3⟩ [0, 1, 2, 3, 4, 5, 6, 7]
+    ⟨by decide, by decide, by decide, by decide, by decide, by decide⟩ _
+    ⟨rfl, rfl, ⟨by decide, by decide, by decide, by decide, by decide⟩, rfl⟩ [10, 11, 12]).2 (by decide) (by decide)
+/-- non-vacuity: `copy_within` of the rectangle `(0,0)..(2,1)` to `(1,1)` in a concrete 3x2 array: the rectangles fit (and
+    would not at `(2,1)`), the call evaluates, and the hypotheses of `C14_copy_within` (row accessor included) hold -/
+example : rectsFit 3 2 (0, 0) (2, 1) (1, 1) ∧ ¬ rectsFit 3 2 (0, 0) (2, 1) (2, 1) ∧
+    (TD.acc (⟨[1, 2, 3, 4, 5, 6], 2, 3⟩ : TD Nat)).copyWithin .debug (fun r => .ok ⟨r * 3, 3⟩) [1, 2, 3, 4, 5, 6]
+      (0, 0) (2, 1) (1, 1) = .ok [1, 2, 3, 4, 1, 2] := ⟨by decide, by decide, by rfl⟩
+example : (TD.acc (⟨[1, 2, 3, 4, 5, 6], 2, 3⟩ : TD Nat)).copyWithin .debug (fun r => .ok ⟨r * 3, 3⟩) [1, 2, 3, 4, 5, 6]
+    (0, 0) (2, 1) (1, 1) = .ok ((TD.asView (⟨[1, 2, 3, 4, 5, 6], 2, 3⟩ : TD Nat)).updCells [1, 2, 3, 4, 5, 6]
+      (copyWithinCells (TD.asView (⟨[1, 2, 3, 4, 5, 6], 2, 3⟩ : TD Nat)) [1, 2, 3, 4, 5, 6] (0, 0) (2, 1) (1, 1))) :=
+  (C14_copy_within .debug (TD.asView (⟨[1, 2, 3, 4, 5, 6], 2, 3⟩ : TD Nat)) [1, 2, 3, 4, 5, 6]
+    (TD.asView_inv _ ⟨rfl, by decide, by decide⟩).1 _ (C13_acc_owned _ ⟨rfl, by decide, by decide⟩)
+    (fun r => .ok ⟨r * 3, 3⟩) (fun r _ => by simp [VW.rowWin, VW.pos, TD.asView, TD.win]) (0, 0) (2, 1) (1, 1)
+    (by decide)).1 (by decide)
+
 end Toodee
